@@ -18,7 +18,8 @@ package internal_test
 //   multi-stream      joins while the streams are paused; every subscriber keeps its
 //                     own stream until the next reload, streams run out of step
 //   streaming-attach  joins while events are being processed
-//   inflight-reload   (thorough) reloads start while responses are being processed
+//   inflight-reload   (thorough) single-stream, but reloads start while responses are
+//                     still being processed by the old watch goroutine
 
 import (
 	"fmt"
@@ -286,7 +287,9 @@ func c15RaceRound(m *vk.M, idx int, r *rand.Rand, kind string) (cont bool) {
 		return false
 	}
 	c := &c15Conc{w: w, kind: kind}
-	single := kind == "single-stream"
+	// in-flight reloads are studied on one stream per key, so that a deviation there is not the
+	// (known) multi-stream class under another name
+	single := kind == "single-stream" || kind == "inflight-reload"
 	quietAttach := kind != "streaming-attach"
 	nKeys := 4 + r.Intn(6)
 	nVals := 2 + r.Intn(3)
